@@ -15,14 +15,18 @@ from simverif.props import c09 as base
 
 ID = 'C08'
 LEVEL = 'exploration'
-TIERS = {'quick': {'runs': 4000}, 'thorough': {'seconds': 600}}
+TIERS = {'quick': {'runs': 3000}, 'thorough': {'seconds': 600}}
 DET_PAIRS_PER_SLOT = 3
 RULE = ("one run = one chain of 2..5 blocks of 1..64 transactions (sizes biased to 1,2,3 and 2^k-1,2^k,2^k+1) built "
         "by an independent reference hub around 0..3 wallet transactions per block; every wallet transaction and "
         "every direct probe carries `genuine` or exactly one mutation of the served proof (branch element bit, "
         "position bit incl. bits above the branch, branch shortened/lengthened at either end, proof or branch of "
         "another index, one field of the transaction bytes incl. witness-only bytes, height shifted, `merkle` "
-        "key missing, empty branch); headers are delivered up to a seeded cut so later heights have no local "
+        "key missing, empty branch, history height shifted while the proof dict keeps the true block_height, dict "
+        "block_height shifted / of another block with that block's branch / missing / string / negative / huge); "
+        "family `checkpointed`: a 2..3 x 1000 block chain exists first, the wallet's header store is checkpointed "
+        "on it, zero-filled, partly back-filled (chunk-aligned) and fetches chunks on demand from the hub while "
+        "verifying at heights inside missing chunks; headers are delivered up to a seeded cut so later heights have no local "
         "header at verification time, the rest arrive later. Phase 1 runs the full sync path (notifications -> "
         "update_history -> _single_batch -> maybe_verify_transaction -> sqlite); phase 2/4 drive _single_batch, "
         "request_transactions and maybe_verify_transaction (proof given, or fetched through get_merkle) on any "
@@ -40,16 +44,23 @@ COMPONENTS = {
              'header notifications handed to Ledger.receive_header directly'],
 }
 ASSUMPTIONS = [
-    'local headers are exactly the hub headers delivered so far (header validation itself is C07)',
+    'local headers are exactly the hub headers delivered so far (header validation itself is C07); in family '
+    '`checkpointed` the reference root of a height is the hub header of that height (a chunk that hashes to its '
+    'checkpoint is the hub chain), never the local copy',
+    'the verdict is taken at the height the wallet records for the transaction (tx.height / saved row height)',
     'the hub may lie about proofs, heights and transaction bytes but answers every request with well-formed JSON '
     '(hex strings, integer pos)',
     'lbry.wallet.claim_proofs.verify_proof (legacy, unused by any live path) is not exercised',
 ]
 MUT_KINDS = ['genuine', 'branch_elem', 'pos_bit', 'shorten', 'lengthen', 'other_tx', 'other_branch_same_pos',
-             'tx_bytes', 'height_shift', 'no_merkle', 'empty_branch']
+             'tx_bytes', 'height_shift', 'no_merkle', 'empty_branch',
+             'height_only', 'dict_height_only', 'dict_other_block', 'dict_height_type']
+MUT_WEIGHTS = [22, 10, 14, 7, 7, 7, 5, 8, 6, 6, 4, 9, 7, 5, 4]
 EXPECTED_PROBES = ['judged', 'expected_verified', 'expected_rejected', 'header_absent', 'dup_last_node_flip_accepted',
                    'pos_bit_above_branch_accepted', 'witness_only_alteration_accepted', 'row_checked', 'sync_path_judged',
-                   'direct_judged', 'via_get_merkle', 'odd_level_block', 'single_tx_block', 'height_not_positive'] + \
+                   'direct_judged', 'via_get_merkle', 'odd_level_block', 'single_tx_block', 'height_not_positive',
+                   'recorded_height_differs_from_dict_both_present', 'ckpt_on_demand_fetch', 'ckpt_unaligned_fetch',
+                   'ckpt_verified_in_missing_chunk', 'ckpt_sync_path_judged'] + \
                   ['mut_' + k for k in MUT_KINDS]
 MAX_BUDGET_FRACTION = 0.02
 
@@ -61,7 +72,10 @@ SIZES = [1, 1, 2, 2, 3, 3, 4, 5, 6, 7, 8, 9, 11, 13, 15, 16, 17, 23, 31, 32, 33,
 # ---------------------------------------------------------------------------------------------------
 
 def _mut(r, allow_tx_bytes=True):
-    kind = r.choices(MUT_KINDS, [22, 10, 14, 7, 7, 7, 5, 8 if allow_tx_bytes else 0, 8, 6, 4])[0]
+    w = list(MUT_WEIGHTS)
+    if not allow_tx_bytes:
+        w[MUT_KINDS.index('tx_bytes')] = 0
+    kind = r.choices(MUT_KINDS, w)[0]
     m = {'kind': kind}
     if kind == 'branch_elem':
         m.update(i=r.randrange(8), byte=r.randrange(32), bit=r.randrange(8))
@@ -76,8 +90,11 @@ def _mut(r, allow_tx_bytes=True):
     elif kind == 'tx_bytes':
         m.update(where=r.choice(['amount', 'locktime', 'version', 'prevout', 'script_sig', 'sequence', 'witness']),
                  k=r.randrange(4), bit=r.randrange(32))
-    elif kind == 'height_shift':
-        m.update(delta=r.choice([-1, 1, -2, 2, 5]))
+    elif kind in ('height_shift', 'height_only', 'dict_height_only', 'dict_other_block'):
+        # mostly to a neighbouring height, so that the wallet has headers for both heights
+        m.update(delta=r.choice([-1, -1, 1, 1, -2, 2, 5]))
+    elif kind == 'dict_height_type':
+        m.update(how=r.choice(['missing', 'string', 'negative', 'none', 'huge', 'zero']))
     elif kind == 'no_merkle':
         m.update(drop_pos=r.random() < 0.5)
     elif kind == 'empty_branch':
@@ -85,11 +102,49 @@ def _mut(r, allow_tx_bytes=True):
     return m
 
 
+def _deep_chain(r, n, big):
+    """Op describing a long pre-existing chain: `chunks` x 1000 blocks, real transaction lists only at `deep`."""
+    chunks = r.choice([2, 2, 3]) if not big else r.choice([2, 3, 4])
+    heights = set()
+    for c in range(chunks):
+        s0 = c * 1000
+        for h in (s0 + 1, s0 + 999, s0 + r.randrange(2, 999), s0 + r.randrange(2, 999)):
+            if r.random() < 0.6:
+                heights.add(h)
+        if c and r.random() < 0.5:
+            heights.add(s0)
+    if not heights:
+        heights.add(r.randrange(1, chunks * 1000))
+    deep = []
+    for h in sorted(heights):
+        size = r.choice(SIZES)
+        txs = []
+        for _ in range(min(size - 1, r.choice([0, 0, 1, 2]))):
+            t = base._tx(r, 'standard', n[0], not deep and not txs)
+            t['mut'] = _mut(r, allow_tx_bytes=False)
+            n[0] += 1
+            txs.append(t)
+        deep.append({'h': h, 'size': size, 'txs': txs})
+    prefill = []
+    mode = r.choices(['top', 'none', 'all_but_one', 'all'], [50, 25, 20, 5])[0]
+    starts = [c * 1000 for c in range(chunks)]
+    if mode == 'top':
+        prefill = [starts[-1]]
+    elif mode == 'all_but_one':
+        prefill = [s0 for s0 in starts if s0 != r.choice(starts)]
+    elif mode == 'all':
+        prefill = starts
+    op = {'op': 'deep_chain', 'n': n[0], 'chunks': chunks, 'deep': deep, 'prefill': prefill}
+    n[0] += 1
+    return op
+
 def gen(run_seed, tier):
     r = stream('C08.gen', run_seed)
-    family = r.choices(['byzantine', 'byzantine_faulty'], [75, 25])[0]
+    family = r.choices(['byzantine', 'byzantine_faulty', 'checkpointed'], [65, 20, 15])[0]
     big = tier != 'quick'
     n_blocks = r.randint(2, 5) if not big else r.randint(3, 9)
+    if family == 'checkpointed':
+        n_blocks = r.randint(1, 3)
     sc = {
         'family': family,
         'wallet_seed': r.getrandbits(64) or 1,
@@ -100,9 +155,16 @@ def gen(run_seed, tier):
         'fault_p': r.choice([0.05, 0.2]) if family == 'byzantine_faulty' else 0.0,
     }
     cut = r.choice([n_blocks, n_blocks, n_blocks - 1, r.randint(0, n_blocks)])   # blocks >= cut: header not yet delivered
-    ops = [{'op': 'start', 'n': 0}]
-    n = 1
+    ops = []
+    n = 0
     first = True
+    if family == 'checkpointed':
+        cnt = [n]
+        ops.append(_deep_chain(r, cnt, big))
+        n = cnt[0]
+        first = not any(d['txs'] for d in ops[0]['deep'])
+        sc['fault_p'] = r.choice([0.0, 0.0, 0.1])
+    ops.append({'op': 'start', 'n': n}); n += 1
     for b in range(n_blocks):
         size = r.choice(SIZES) if r.random() < 0.8 else r.randint(1, 64)
         for _ in range(min(size - 1, r.choice([0, 1, 1, 2, 3]))):
@@ -170,11 +232,14 @@ def apply_mut(hub, txid, mut):
     hub.proof_mut.pop(txid, None)
     hub.raw_mut.pop(txid, None)
     hub.height_shift.pop(txid, None)
+    hub.hist_shift.pop(txid, None)
     kind = (mut or {}).get('kind', 'genuine')
     if kind == 'tx_bytes':
         hub.raw_mut[txid] = mut
-    elif kind == 'height_shift':
+    elif kind == 'height_shift':            # history AND proof dict name the shifted height
         hub.height_shift[txid] = int(mut.get('delta', 1))
+    elif kind == 'height_only':             # history names the shifted height, the proof dict stays genuine
+        hub.hist_shift[txid] = int(mut.get('delta', 1))
     elif kind != 'genuine':
         hub.proof_mut[txid] = mut
     return kind
@@ -198,20 +263,30 @@ def execute(scenario, keep_trace=False):
     expected_by_obj = {}
     last_saved = {}             # product txid -> (expected verdict, mutation kind) of the object saved last
 
+    checkpointed = {'on': False, 'missing_at_entry': set()}
+
     def local_root(height):
         buf = bytes(W.headers.io.getbuffer()[height * 112 + 36: height * 112 + 68])
         return buf if len(buf) == 32 else None
 
-    def judge(tx, remote_height, n_headers, served):
-        """Independent verdict for what was served. -> (expected bool, reason)"""
-        if not 0 < remote_height < n_headers:
+    def root_at(height):
+        """Merkle root of the locally validated header at `height`.  Plain store: what the wallet holds (its
+        headers are exactly the hub headers handed over).  Checkpointed store: a chunk that hashes to its
+        checkpoint IS the hub's chain, so the hub's own header is the reference (the local copy is under test)."""
+        if checkpointed['on']:
+            return hub.blocks[height].root if 0 <= height < len(hub.blocks) else None
+        return local_root(height)
+
+    def judge(tx, recorded_height, n_headers, served):
+        """Independent verdict for what was served, at the height the wallet records. -> (expected, reason)"""
+        if not isinstance(recorded_height, int) or not 0 < recorded_height < n_headers:
             return False, 'no_header'
         if not isinstance(served, dict) or 'merkle' not in served:
             return False, 'no_merkle'
         leaf = H.txhash_from_raw(bytes(tx.raw))
         branch = [bytes.fromhex(x)[::-1] for x in served['merkle']]
         folded = H.merkle_fold(leaf, branch, served['pos'])
-        return folded == local_root(remote_height), 'fold'
+        return folded == root_at(recorded_height), 'fold'
 
     def hub_txid_of(tx):
         # the hub transaction these served bytes belong to (same id unless the bytes were altered)
@@ -227,6 +302,7 @@ def execute(scenario, keep_trace=False):
     async def observed_verify(tx, remote_height, merkle=None):
         n_headers = len(W.headers)
         was = bool(tx.is_verified)
+        missing_before = set(W.headers.known_missing_checkpointed_chunks) if checkpointed['on'] else ()
         try:
             ret = await orig_verify(tx, remote_height, merkle)
         except (asyncio.CancelledError, SimBudget, SimIdle):
@@ -242,10 +318,21 @@ def execute(scenario, keep_trace=False):
         served = merkle if merkle else hub.served_merkle.get(tx.id)
         if not merkle:
             run.probes['via_get_merkle'] += 1
+        told_height = remote_height
+        remote_height = tx.height            # the height the wallet records for the transaction
         expected, reason = judge(tx, remote_height, n_headers, served)
         got = bool(tx.is_verified)
         run.probes['judged'] += 1
         run.probes['sync_path_judged' if state['mode'] == 'sync' else 'direct_judged'] += 1
+        if checkpointed['on']:
+            if state['mode'] == 'sync':
+                run.probes['ckpt_sync_path_judged'] += 1
+            if isinstance(remote_height, int) and (remote_height // 1000) * 1000 in missing_before and expected:
+                run.probes['ckpt_verified_in_missing_chunk'] += 1
+        dh = served.get('block_height') if isinstance(served, dict) else None
+        if isinstance(dh, int) and not isinstance(dh, bool) and isinstance(remote_height, int) and \
+                dh != remote_height and 0 < dh < n_headers and 0 < remote_height < n_headers and 'merkle' in served:
+            run.probes['recorded_height_differs_from_dict_both_present'] += 1
         run.probes['mut_' + kind] += 1
         run.probes['expected_verified' if expected else 'expected_rejected'] += 1
         if reason == 'no_header':
@@ -262,8 +349,9 @@ def execute(scenario, keep_trace=False):
         expected_by_obj[id(tx)] = (expected, kind, remote_height, n_headers)
         run.ev('verify', tx.id[:12], remote_height, n_headers, kind, reason, expected, got)
         if got != expected:
-            detail = (f'tx {tx.id[:16]} height={remote_height} local_headers={n_headers} mutation={kind} '
-                      f'served={_short(served)} is_verified={got} expected={expected} ({reason}; was {was})')
+            detail = (f'tx {tx.id[:16]} recorded height={remote_height} (told {told_height}) local_headers={n_headers} '
+                      f'mutation={kind} served={_short(served)} is_verified={got} expected={expected} '
+                      f'({reason}; was {was})')
             if got and reason == 'no_header':
                 run.violation('C08.verified_without_header', detail, mut=kind, where='object')
             elif got:
@@ -294,11 +382,15 @@ def execute(scenario, keep_trace=False):
                 continue
             expected, kind, rh, nh = e
             run.probes['row_checked'] += 1
+            if is_verified and height != rh:
+                return run.violation('C08.verified_without_proof', f'{where}: saved row of tx {txid[:16]} is verified '
+                                     f'at height {height}, but the object saved last was judged at height {rh} '
+                                     f'(mutation={kind})', mut=kind, where='row')
             if bool(is_verified) != expected:
                 detail = (f'{where}: saved row of tx {txid[:16]} has is_verified={is_verified} height={height}; the '
                           f'object saved last was judged expected={expected} (mutation={kind}, height={rh}, '
                           f'local_headers={nh})')
-                if is_verified and not 0 < rh < nh:
+                if is_verified and not (isinstance(rh, int) and 0 < rh < nh):
                     return run.violation('C08.verified_without_header', detail, mut=kind, where='row')
                 if is_verified:
                     return run.violation('C08.verified_without_proof', detail, mut=kind, where='row')
@@ -328,13 +420,17 @@ def execute(scenario, keep_trace=False):
         if op.get('mempool') and hub.mempool:
             target = hub.txs[hub.mempool[min(len(hub.mempool) - 1, int(op.get('index', 0) * len(hub.mempool)))]]
         if target is None:
-            blk = blocks[min(len(blocks) - 1, int(op.get('block', 0) * len(blocks)))]
+            real = [b for b in blocks if b.txids]
+            if not real:
+                return
+            blk = real[min(len(real) - 1, int(op.get('block', 0) * len(real)))]
             target = hub.txs[blk.txids[min(len(blk.txids) - 1, int(op.get('index', 0) * len(blk.txids)))]]
         mut = op.get('mut') or {'kind': 'genuine'}
         kind = apply_mut(hub, target.txid, mut)
         mut_of[target.txid] = kind
         true_height = target.height if target.height is not None else 0
-        height = true_height + (int(mut.get('delta', 1)) if kind == 'height_shift' and target.height is not None else 0)
+        height = true_height + (int(mut.get('delta', 1)) if kind in ('height_shift', 'height_only') and
+                                target.height is not None else 0)
         via = op.get('via', 'batch')
         run.ev('probe', op['n'], target.txid[:12], true_height, target.pos, kind, via)
         state['mode'] = 'direct'
@@ -391,21 +487,85 @@ def execute(scenario, keep_trace=False):
         return blk
 
     async def deliver_headers(upto=None):
-        """Hand the wallet every header it does not have yet, in order, and wait until connected."""
+        """Hand the wallet every header it does not have yet, in order, and wait until connected.
+        -> False (and a violation) if the wallet refuses a header of the honest chain."""
         upto = len(hub.blocks) if upto is None else upto
         while len(W.headers) < upto:
             before = len(W.headers)
-            await W.deliver_header(before, 0.0)
-            if len(W.headers) <= before:   # pragma: no cover - harness fidelity
-                raise RuntimeError(f'header {before} was not connected')
+            n_fail = len(W.failures)
+            try:
+                await W.deliver_header(before, 0.0)
+            except (asyncio.CancelledError, SimBudget, SimIdle):
+                raise
+            except Exception as e:  # noqa
+                run.violation('C08.exception', f'honest header {before} (local headers {before}) was refused: '
+                              f'{type(e).__name__}: {e}', exc=type(e).__name__, mut='headers')
+                return False
+            if len(W.headers) <= before:
+                txt = W.failure_text() if len(W.failures) > n_fail else 'no exception'
+                run.violation('C08.exception', f'honest header {before} was not connected to the local chain of '
+                              f'{before} headers ({txt})', exc='NotConnected', mut='headers')
+                return False
+        return True
+
+    opened = {'headers': False}
+
+    async def ensure_headers():
+        if not opened['headers']:
+            opened['headers'] = True
+            await W.open_headers()
+
+    async def do_deep_chain(op):
+        """A long chain that exists before the wallet: `chunks` x 1000 blocks with real transaction lists only
+        at the `deep` heights; the wallet's header store is checkpointed on it and not back-filled."""
+        if opened['headers'] or hub.blocks:
+            return
+        chunks = max(1, min(4, int(op.get('chunks', 2))))
+        total = chunks * 1000
+        rng = run.rng('deep', op['n'])
+        hub.mine(rng, [], 0)                                   # genesis
+        for d in sorted(op.get('deep', []), key=lambda d: d.get('h', 0)):
+            h = int(d.get('h', 1))
+            if not len(hub.blocks) <= h < total:
+                continue
+            hub.mine_synthetic(rng, h - len(hub.blocks))
+            for t in d.get('txs', []):
+                tx = base.build_tx(W, run, t)
+                if tx is not None:
+                    mut_of[tx.txid] = apply_mut(hub, tx.txid, t.get('mut'))
+            chosen = hub.select_for_block(rng, 1.0)
+            hub.mine(rng, chosen, max(0, int(d.get('size', 1)) - 1 - len(chosen)))
+        hub.mine_synthetic(rng, total - len(hub.blocks))
+        checkpoints = {s0: hub.chunk_checkpoint(s0) for s0 in range(0, total, 1000)}
+        opened['headers'] = True
+        checkpointed['on'] = True
+        await W.open_headers(checkpoints)
+        orig_fetch = W.headers.fetch_chunk
+
+        async def observed_fetch(height):
+            run.probes['ckpt_on_demand_fetch'] += 1
+            if height % 1000:
+                run.probes['ckpt_unaligned_fetch'] += 1
+            return await orig_fetch(height)
+        W.headers.fetch_chunk = observed_fetch
+        if len(W.headers) != total or sorted(W.headers.known_missing_checkpointed_chunks) != sorted(checkpoints):
+            raise RuntimeError('checkpointed header store did not open as expected')   # harness fidelity
+        # part of the background back-fill (Ledger.initial_headers_sync.doit asks for chunk-aligned heights)
+        for s0 in sorted((int(x) for x in op.get('prefill', [])), reverse=True):
+            if s0 in checkpoints:
+                await W.headers.ensure_chunk_at(s0)
+        run.ev('deep_chain', chunks, len([b for b in hub.blocks if b.txids]),
+               sorted(W.headers.known_missing_checkpointed_chunks))
 
     async def driver():
-        await W.open()
+        await W.open(headers=False)
         hdr_ok = True           # once a block's header is withheld, all later ones are withheld too
-        if not any(o.get('op') == 'start' for o in ops):
-            start_wallet()
         for op in ops:
             kind = op.get('op')
+            if kind == 'deep_chain':
+                await do_deep_chain(op)
+                continue
+            await ensure_headers()
             if kind == 'start':
                 start_wallet()
             elif kind == 'tx':
@@ -415,12 +575,14 @@ def execute(scenario, keep_trace=False):
             elif kind == 'block':
                 blk = do_block(op)
                 hdr_ok = hdr_ok and bool(op.get('hdr', True))
-                if hdr_ok:
-                    await deliver_headers(blk.height + 1)
+                if hdr_ok and not await deliver_headers(blk.height + 1):
+                    return
             elif kind == 'headers':
                 hdr_ok = True
-                await deliver_headers()
+                if not await deliver_headers():
+                    return
             elif kind == 'stage':
+                start_wallet()
                 base.do_stage_notifications(W, run, op, sent_statuses)
                 if op.get('wait', True) and not await settle(f"stage op {op['n']}"):
                     return
@@ -430,6 +592,7 @@ def execute(scenario, keep_trace=False):
                 await asyncio.sleep(float(op.get('dt', 0.0)))
             if run.violations:
                 return
+        await ensure_headers()
         start_wallet()
         base.do_stage_notifications(W, run, {'op': 'stage', 'n': 'final', 'spread': 0.0, 'dup': 0.0, 'stale': 0.0},
                                     sent_statuses)
